@@ -86,8 +86,41 @@ def tokensOfMatch (d : Delims) (src : Bytes) (ts : Nat) (caps : Caps) (line : Na
     (if isHyphenAt src (src.length - d.tr.length - 1) then [{ ty := .trimR }] else [])
   else []
 
-/-- the `FindAllStringSubmatchIndex` loop of `Scan`, generic in the regexp.
-    `s` is the unread suffix at absolute offset `p`; `n` bounds the number of matches. -/
+/-- the name of the tag token that `tokensOfMatch` emits for this match (`none` when it emits an
+    object or nothing): `Scan` decides object / tag by the prefix of the source -/
+def tagNameOfMatch (d : Delims) (src : Bytes) (ts : Nat) (caps : Caps) : Option Bytes :=
+  if isPrefixOfB d.ol src then none
+  else if isPrefixOfB d.tl src then
+    some (match caps.find 2 with
+      | some (a, b) => subAt src ts a b
+      | none => [])
+  else none
+
+def nameRaw : Bytes := [114, 97, 119]                          -- "raw"
+def nameComment : Bytes := [99, 111, 109, 109, 101, 110, 116]  -- "comment"
+def nameEnd : Bytes := [101, 110, 100]                         -- "end"
+
+/-- model of the pattern built by `formEndTagMatcher`: `TL-?\s*NAME\s*-?TR` -/
+def endTagRe (d : Delims) (name : Bytes) : Re :=
+  Re.seq (Re.lit d.tl) (.seq hy (.seq sp (.seq (Re.lit name) (.seq sp (.seq hy (Re.lit d.tr))))))
+
+/-- after a tag named `raw` or `comment`: the number of bytes before the first end tag of that
+    block in `rest` (which sits at absolute offset `p`); 0 when there is no such tag ahead, or
+    when the match was not such a tag. These bytes become one text token. -/
+def lexSkip (mfuel : Nat) (d : Delims) (name : Option Bytes) (rest : Bytes) (p : Nat) : Nat :=
+  match name with
+  | some n =>
+    if n == nameRaw || n == nameComment then
+      match (endTagRe d (nameEnd ++ n)).search mfuel rest p 0 with
+      | some (a, _, _) => a
+      | none => 0
+    else 0
+  | none => 0
+
+/-- the match loop of `Scan` (one `FindStringSubmatchIndex` from the end of the previous match per
+    round, which is what `FindAll` does), generic in the regexp. `s` is the unread suffix at
+    absolute offset `p`; `n` bounds the number of matches. After a `raw` / `comment` tag the
+    bytes up to the block's end tag are one text token (`lexSkip`). -/
 def scanLoop (mfuel : Nat) (re : Re) (d : Delims) : Nat → Bytes → Nat → Nat → List Token
   | 0, s, _, line => if s.isEmpty then [] else [{ ty := .text, line := line, source := s }]
   | n+1, s, p, line =>
@@ -99,11 +132,16 @@ def scanLoop (mfuel : Nat) (re : Re) (d : Delims) : Nat → Bytes → Nat → Na
       let src := (s.drop skip).take (e - ts)
       let rest := s.drop (skip + (e - ts))
       let line1 := line + countNL pre
+      let line2 := line1 + countNL src
       (if pre.isEmpty then [] else [{ ty := .text, line := line, source := pre }]) ++
       tokensOfMatch d src ts caps line1 ++
       (if e ≤ ts then   -- an empty match: cannot happen for a token regexp; stop scanning
-         (if rest.isEmpty then [] else [{ ty := .text, line := line1 + countNL src, source := rest }])
-       else scanLoop mfuel re d n rest e (line1 + countNL src))
+         (if rest.isEmpty then [] else [{ ty := .text, line := line2, source := rest }])
+       else
+         let a := lexSkip mfuel d (tagNameOfMatch d src ts caps) rest e
+         let body := rest.take a
+         (if body.isEmpty then [] else [{ ty := .text, line := line2, source := body }]) ++
+         scanLoop mfuel re d n (rest.drop a) (e + a) (line2 + countNL body))
 
 def scanWith (re : Re) (d : Delims) (src : Bytes) (line : Nat) : List Token :=
   scanLoop (src.length + 1) re d (src.length + 1) src 0 line
